@@ -24,8 +24,10 @@ BOUNDS = ("Inductive step from any pre-state satisfying I1 (machine-known axis =
           "body)} x distance mode x which pre-position axes are None (8) x which argument axes "
           "are None (8) x positional/keyword form. Solver over: all three pre-coordinates, all "
           "three arguments (finite reals), and per axis whether the machine knows it. Identity "
-          "transform only. Interpolated paths are covered through the tracer frame condition "
-          "(AST scan) which reduces every vertex to one move() call.")
+          "transform only. Interpolated paths: the tracer frame condition (AST scan) reduces "
+          "every vertex to one move() call, and the tracer's own emission code (polyline; the "
+          "parametric() loop with curve function and segment filter stubbed) is run on two symbolic "
+          "vertices from every kind of pre-state.")
 ASSUMPTIONS = [
     "arguments and coordinates are finite reals (non-finite arguments are C05/C08's subject)",
     "no bounds configured, no hooks, identity transform",
@@ -279,6 +281,38 @@ def validate():
     return {"checked": len(samples) * 2, "failures": failures, "frame_condition_violations": fc}
 
 
+def _make_tracer_emission(kind, rel, prepat):
+    """Interpolated paths: the emission loop of the tracer (to_absolute_list / to_distance_mode +
+    move per vertex) on symbolic vertices, from a pre-state satisfying I1."""
+    def h(px: Finite, py: Finite, pz: Finite, ax: Finite, ay: Finite, bx: Finite, by: Finite,
+          kx: bool, ky: bool, kz: bool):
+        pos = _pick(prepat, (px, py, pz))
+        pre = mkpre(pos=pos, relative=rel, mknown=(kx, ky, kz))
+        g, rec = prepare(pre)
+        m = machine_for(pre, rec)
+        if kind == "polyline":
+            # polyline takes targets in the current distance mode
+            e = attempt(g.trace.polyline, [(ax, 1.5), (bx, 5.0, 4.0)])
+        else:
+            verts = [(ax, 2.5, 2.0), (bx, 5.0, -3.0)]   # absolute sample points of a curve
+            g.trace._filter_segments = lambda pts: pts
+            e = attempt(g.trace.parametric, lambda thetas: verts, 10.0)
+        if e is not None:
+            msg = f"{exc_name(e)}: {e}"
+            return V(f"trace-{kind}-unexpected-exception", msg)
+        reached("emitted")
+        v = _check_after(g, m, rec, pre, f"trace-{kind}")
+        if v is not None:
+            return v
+        if kind == "parametric":
+            for i, want in enumerate((bx, 5.0, -3.0)):
+                if not num_eq(g.position[i], want):
+                    return V("trace-parametric-does-not-end-on-the-last-sample",
+                             lambda: f"position {tuple(g.position)!r}, last sample ({bx!r},{by!r},-3.0)")
+        return None
+    return h
+
+
 def _pname(p):
     return "".join("n" if has else "-" for has in p)
 
@@ -311,6 +345,13 @@ def cells(tier):
                 name = f"set_distance_mode:{target}|{'rel' if rel else 'abs'}|pre={_pname(prepat)}"
                 out.append(Cell(name, _make_mode(target, prepat, rel), budget_s=budget,
                                 must_reach=("emitted",), entry="GCodeBuilder.set_distance_mode"))
+    for kind in ("polyline", "parametric"):
+        for rel in (False, True):
+            for prepat in ([(True, True, True), (False, True, False), (False, False, False)]
+                           if quick else PATTERNS):
+                name = f"trace:{kind}|{'rel' if rel else 'abs'}|pre={_pname(prepat)}"
+                out.append(Cell(name, _make_tracer_emission(kind, rel, prepat), budget_s=budget,
+                                must_reach=("emitted",), entry=f"PathTracer.{kind} (emission)"))
     kinds = ["abs", "rel", "abs-in-rel", "rel-in-abs", "abs-raise", "rel-raise", "abs-switch",
              "rel-switch"]
     for kind in kinds:
